@@ -6,7 +6,7 @@
    does not run (run = None), so every `run ... = Some st` is a real execution prefix.
 
    This file contains only property theorems, each closed by `exact <lemma>` and followed by
-   Print Assumptions, and the statements that are not proved (Definition C05_full_...). *)
+   Print Assumptions. *)
 From Coq Require Import Permutation.
 From SV Require Import Base.Prelude Model.Mailbox Proof.MailboxFacts Proof.MailboxProof Proof.MailboxInOrder
   Proof.MailboxTermination Model.MailboxDivider Proof.MailboxDividerProof Proof.MailboxDividerLive Proof.MailboxNumbered.
@@ -137,12 +137,12 @@ Theorem C05_divider_no_lost_wakeup :
 Proof. exact divider_no_lost_wakeup. Qed.
 Print Assumptions C05_divider_no_lost_wakeup.
 
-(* Explicit numbering (send(msg, msg_number=k)), the safety half: for every duplicate-free numbering with
-   numbers below the message count (= every permutation), sent in any order, with any capacity, mode,
-   subscribers, kill and schedule: each subscriber's delivered sequence is a prefix of the messages ORDERED
-   BY NUMBER (expected items = vals of the messages numbered 0, 1, ..., N-1), and a subscriber that
-   finished normally has received all of them.  The liveness half is C05_full_mailbox_explicit_numbering. *)
-Theorem C05_mailbox_explicit_numbering_safe_partial :
+(* Explicit numbering (send(msg, msg_number=k)), safety: for every duplicate-free numbering with numbers
+   below the message count (= every permutation), sent in any order, with any capacity, mode, subscribers,
+   kill and schedule: each subscriber's delivered sequence is a prefix of the messages ORDERED BY NUMBER
+   (expected items = vals of the messages numbered 0, 1, ..., N-1), and a subscriber that finished normally
+   has received all of them. *)
+Theorem C05_mailbox_explicit_numbering_safe :
   forall (cfg : config) (items : list (nat * msg)) (nfut : nat),
     NoDup (map fst items) ->
     (forall k m, In (k, m) items -> k < length items) ->
@@ -152,7 +152,27 @@ Theorem C05_mailbox_explicit_numbering_safe_partial :
       forall i r, nth_error (rds st) i = Some r ->
         is_prefix (r_log r) (expected items) /\ (r_pc r = RDone -> r_log r = expected items).
 Proof. exact numbered_delivery_safe. Qed.
-Print Assumptions C05_mailbox_explicit_numbering_safe_partial.
+Print Assumptions C05_mailbox_explicit_numbering_safe.
+
+(* Explicit numbering, liveness (eager mode, no kill): when the numbering is a permutation of 0..N-1 that
+   `fits` the capacity -- before every send, fewer than `capacity` of the numbers already sent lie above
+   the lowest number not yet sent -- every reachable state has an enabled thread or all threads have
+   finished, and then every subscriber has exactly the messages in number order. *)
+Theorem C05_mailbox_explicit_numbering :
+  forall (cfg : config) (items : list (nat * msg)) (nfut : nat),
+    Permutation (map fst items) (seq 0 (length items)) ->
+    (forall k m, In (k, m) items -> is_stop m = false) ->
+    c_lazy cfg = false ->
+    (forall k v n, In (n, Fut k v) items -> k < nfut) ->
+    forall (drives : list bool) (sched : list tid) (st : state),
+      drives <> [] -> (forall c, c_cap cfg = Some c -> 1 <= c) -> fits (c_cap cfg) (map fst items) ->
+      run cfg (init cfg drives (numbered_source items) None nfut) sched = Some st ->
+      ((exists t, enabled st t = true) \/ all_terminal st = true) /\
+      (forall i r, nth_error (rds st) i = Some r ->
+         is_prefix (r_log r) (expected items) /\ (r_pc r = RDone -> r_log r = expected items)) /\
+      (all_terminal st = true -> forall i r, nth_error (rds st) i = Some r -> r_log r = expected items).
+Proof. exact numbered_safe_and_live. Qed.
+Print Assumptions C05_mailbox_explicit_numbering.
 
 (* Deadlock freedom of the divider system (Proof/MailboxDividerLive.v): every reachable state has an
    enabled thread or everything has finished -- any number of mailboxes with at least one subscriber each,
@@ -174,30 +194,19 @@ Theorem C05_divider_deadlock_free :
 Proof. exact divider_deadlock_free. Qed.
 Print Assumptions C05_divider_deadlock_free.
 
-(* ---------------- stated, not proved ---------------- *)
+(* The property statement phrases the condition on explicit numbers as "the capacity exceeds their largest
+   displacement": that implies `fits` (after p sends exactly p - u sent numbers lie above the lowest unsent
+   number u, and u itself sits at a position q >= p with q < u + capacity). *)
+Theorem C05_displacement_implies_fits :
+  forall (c : nat) (nums : list nat),
+    1 <= c ->
+    Permutation nums (seq 0 (length nums)) ->
+    (forall p k, nth_error nums p = Some k -> k < p + c /\ p < k + c) ->
+    fits (Some c) nums.
+Proof. exact displacement_implies_fits. Qed.
+Print Assumptions C05_displacement_implies_fits.
 
-(* Explicit numbering, the liveness half: deadlock freedom (and hence complete delivery) when the
-   numbering fits the capacity -- before every send, fewer than `capacity` already-sent messages lie above
-   the lowest unsent number (implied by "the capacity exceeds the largest displacement").  Same LTS with
-   `Some k` numbers; checked by the correspondence over all permutations of up to 4 messages (the model's
-   complete state graphs have no deadlock state exactly when the numbering fits), not by a proof. *)
-Definition fits (cap : option nat) (nums : list nat) : Prop :=
-  match cap with
-  | None => True
-  | Some c => forall p, p <= length nums ->
-      forall u, (forall k, k < u -> In k (firstn p nums)) -> ~ In u (firstn p nums) ->
-        length (filter (fun k => u <? k) (firstn p nums)) < c
-  end.
-Definition C05_full_mailbox_explicit_numbering : Prop :=
-  forall (cfg : config) (items : list (nat * msg)) (nfut : nat),
-    c_lazy cfg = false ->
-    (forall it, In it items -> is_stop (snd it) = false) ->
-    Permutation (map fst items) (seq 0 (length items)) ->
-    fits (c_cap cfg) (map fst items) ->
-    forall (drives : list bool) (sched : list tid) (st : state),
-      drives <> [] ->
-      (forall c, c_cap cfg = Some c -> 1 <= c) ->
-      (forall k v, In (Fut k v) (map snd items) -> k < nfut) ->
-      run cfg (init cfg drives (numbered_source items) None nfut) sched = Some st ->
-      ((exists t, enabled st t = true) \/ all_terminal st = true) /\
-      (all_terminal st = true -> forall i r, nth_error (rds st) i = Some r -> r_pc r = RDone).
+(* No statement of this property is left unproved for the model.  Outside the model (see
+   design_notes/C05.md): failure paths of divide_outputs, duplicate message numbers, subscriber
+   exceptions, explicit numbering through a gated (lazy) sender, which strax never does and which
+   deadlocks (Proof/MailboxExamples.v: ex_lazy_out_of_order_deadlocks). *)
